@@ -59,6 +59,16 @@ def catalogue():
   cat["rows_sparse_elliptic"] = rows_scene([4, 3, 6], welds=1, hinges=2, hinge_limit=True, cone="elliptic", jacobian="sparse", chain=3)
   cat["rich"] = c10.SCENE
   cat["sleep_islands"] = c38.scene([6, 3, 6, 1], True)
+  # trees that fork (a body with several children, grandchildren below): the branch / level traversals of kinematics, velocities and accelerations
+  limb = lambda n, p, ax: (f'<body name="{n}" pos="{p}"><joint type="hinge" axis="{ax}" damping="0.1"/><geom type="capsule" fromto="0 0 0 0.15 0 -0.1" size="0.03"/>'
+                           f'<body pos="0.15 0 -0.1"><joint type="ball" damping="0.05"/><geom type="capsule" fromto="0 0 0 0.12 0.05 -0.1" size="0.025"/>'
+                           f'<body pos="0.12 0.05 -0.1"><joint type="slide" axis="0 0 1" range="-0.05 0.05" limited="true"/><geom type="sphere" size="0.04"/></body></body></body>')
+  cat["forks"] = ('<mujoco><option timestep="0.004"/><worldbody><geom type="plane" size="5 5 .1"/>'
+                  '<body name="torso" pos="0 0 0.6"><freejoint/><geom type="box" size="0.12 0.08 0.05"/>'
+                  + limb("l1", "0.12 0.08 0", "0 1 0") + limb("l2", "0.12 -0.08 0", "1 0 0") + limb("l3", "-0.12 0.08 0", "0 1 0") + limb("l4", "-0.12 -0.08 0", "0 0 1")
+                  + '</body><body name="base2" pos="1 0 0.5"><joint name="base2" type="hinge" axis="0 0 1"/><geom type="cylinder" size="0.05 0.1"/>'
+                  + limb("m1", "0.05 0 0.1", "0 1 0") + limb("m2", "-0.05 0 0.1", "1 0 0") + '</body></worldbody>'
+                  '<actuator><motor joint="base2" gear="2"/></actuator><sensor><framelinacc objtype="body" objname="l1"/><subtreecom body="torso"/><frameangvel objtype="body" objname="m2"/></sensor></mujoco>')
   return cat
 
 
